@@ -83,6 +83,40 @@ func c15ClearCovers(c *Ctx, t, dense *types.Named, pr *paginatedRoles) {
 		c.R.violate(rule, tname+".Clear/declared", tname, "", "the type declares its own Clear", "promoted or missing")
 		return
 	}
+	// every way through Clear does the whole job: what one path resets (outside loops), every path resets — an early
+	// return under "already empty" leaves behind whatever emptiness does not imply (a window, a collapsed flag, memory
+	// of weights that underflowed to zero)
+	{
+		cpaths, _ := exec(c, clear, nil, 1)
+		all := map[string]bool{}
+		per := make([]map[string]bool, len(cpaths))
+		for i, p := range cpaths {
+			per[i] = map[string]bool{}
+			for _, e := range p.Effects {
+				if e.Kind == "store" && !e.InLoop {
+					k := stripVers(e.Addr).Key()
+					per[i][k], all[k] = true, true
+				}
+				if e.Kind == "call" && !e.Pure && !e.InLoop && e.Call != nil {
+					k := "call " + e.Call.Sym
+					per[i][k], all[k] = true, true
+				}
+			}
+		}
+		bad := ""
+		for i, p := range cpaths {
+			if p.Panics {
+				continue
+			}
+			for k := range all {
+				if !per[i][k] {
+					bad = firstNonEmpty(bad, "a way through Clear skips "+shorten(k, 80)+": ["+p.String()+"]")
+				}
+			}
+		}
+		c.R.check(bad == "" && len(cpaths) > 0, rule, tname+".Clear/every-path-clears", shortFn(clear), c.fpos(clear),
+			"every path through Clear performs every reset some path performs (no early return)", firstNonEmpty(bad, fmt.Sprintf("%d path(s)", len(cpaths))))
+	}
 	ctor := c.P.Func(pkgStore, "New"+tname)
 	if !c.mustFunc(rule, ctor, "store.New"+tname) {
 		return
